@@ -37,7 +37,8 @@ def main() -> int:
         if res.returncode != 0:
             print("PATCH-FAILED", res.stdout[-500:], res.stderr[-500:])
             return 3
-        env = dict(os.environ, PYTHONPATH=str(scratch / "src"), PYTHONDONTWRITEBYTECODE="1")
+        # (/venv/bin on PATH: the external optimizer's runner executable lives there)
+        env = dict(os.environ, PYTHONPATH=str(scratch / "src"), PYTHONDONTWRITEBYTECODE="1", PATH="/venv/bin:" + os.environ.get("PATH", ""))
         res = subprocess.run(["/venv/bin/python", "-m", "pytest", "-q", "-p", "no:cacheprovider", "--timeout=900"],
                              cwd=scratch, env=env, capture_output=True, text=True)
         last = (res.stdout.strip().splitlines() or [""])[-1]
@@ -45,7 +46,7 @@ def main() -> int:
         print("TESTS", "pass" if res.returncode == 0 else "FAIL", last)
         if demo.exists():
             with_change = subprocess.run(["/venv/bin/python", str(demo)], cwd=scratch, env=env, capture_output=True, text=True)
-            env0 = dict(os.environ, PYTHONPATH="/repo/src", PYTHONDONTWRITEBYTECODE="1")
+            env0 = dict(os.environ, PYTHONPATH="/repo/src", PYTHONDONTWRITEBYTECODE="1", PATH="/venv/bin:" + os.environ.get("PATH", ""))
             without = subprocess.run(["/venv/bin/python", str(demo)], cwd="/tmp", env=env0, capture_output=True, text=True)
             confirmed["demo_exit_with_change"] = with_change.returncode
             confirmed["demo_exit_unchanged"] = without.returncode
